@@ -54,6 +54,8 @@ _kinds = {"mint", "transfer", "transfer_from", "approve", "forced_transfer", "bu
           "set_frozen", "pause", "unpause", "set_id", "set_ct", "set_cc", "set_rec"}
 _c = dict(Acct=ABC, Amts={0, 1, 2}, NegAmt=False, Now0=10, DU=100, AllAuth=False, Kinds=_kinds, EmitMod=1)
 MODEL = dict(
+    # unbounded amounts: Apalache discharges the conservation / freeze invariant as an inductive invariant (thorough tier)
+    proofs=[dict(name="ApaRwa", cmd=["lib/apalache.sh", "ApaRwa"], tiers=("thorough",))],
     bin="rwa",
     trace="Trace_Rwa",
     mc=[
